@@ -44,12 +44,15 @@ def _guarded(facts, body, bb, depth, _seen):
     for c in body.calls():
         if is_guard(c) and body.dominates(c.bb, bb) and c.bb != bb:
             return True
-    # idiom: a loop that runs the pre-pass over every item, followed by the evaluation of the same items
+    # idiom: a loop that runs the pre-pass over every item, followed by the evaluation of the same items — valid only while the row
+    # the items are evaluated on is the row the pre-pass saw: if the evaluating loop also mutates that row (SET overlays the assigned value
+    # so that later items read it), a later item is evaluated on a state the pre-pass never checked
     for c in body.calls():
         if is_guard(c) and c.bb != bb:
             hdr = _loop_header(body, c.bb)
             if hdr is not None and body.dominates(hdr, bb) and bb not in _loop_blocks(body, hdr):
-                return True
+                if not _row_mutated_in_eval_loop(body, bb):
+                    return True
     # idiom: aggregate folds evaluate, in phase 2, exactly the rows that phase 1 validated before storing them
     if body.id == AGG_ROOT:
         vs = [c for c in body.calls() if c.name.split("::")[-1] == AGG_VALIDATE]
@@ -72,6 +75,29 @@ def _guarded(facts, body, bb, depth, _seen):
                     sites.append((cbody, c.bb))
         if sites and all(guarded(facts, cbody, b2, depth - 1, _seen) for cbody, b2 in sites):
             return True
+    return False
+
+
+def _row_mutated_in_eval_loop(body, bb):
+    from .mirutil import peel_refs
+    ev = [c for c in body.calls() if c.bb == bb and is_eval(c)]
+    if not ev or len(ev[0].args) < 2:
+        return False
+    rl = op_local(ev[0].args[1])
+    root = peel_refs(body, rl) if rl is not None else None
+    hdr = _loop_header(body, bb)
+    if root is None or hdr is None:
+        return False
+    loop = _loop_blocks(body, hdr)
+    for c in body.calls():
+        if c.bb not in loop or is_eval(c) or is_guard(c):
+            continue
+        for a in c.args:
+            l = op_local(a)
+            if l is None:
+                continue
+            if body.local_ty(l).startswith("&mut") and peel_refs(body, l) == root:
+                return True
     return False
 
 
